@@ -150,7 +150,7 @@ class Bucket:
         """
         Generate a new id.
         """
-        rand_node_id_bin = format(random.randint(0, 2 ** (160 - len(self.prefix_id))), "0160b")
+        rand_node_id_bin = format(random.randint(0, 2 ** (160 - len(self.prefix_id)) - 1), "0160b")
         rand_node_id_bin = self.prefix_id + rand_node_id_bin[len(self.prefix_id):]
         return binascii.unhexlify(format(int(rand_node_id_bin, 2), "040X"))
 
